@@ -627,6 +627,8 @@ def x3c_container(text, log):
     (prelude/comp.rs); with it the type parameter F disappears: `Package<F>` -> `Package`."""
     t2 = re.sub(r"\bcfb::CompoundFile<F>", "VComp", text)
     t2 = re.sub(r"\bPackage<F>", "Package", t2)
+    t2 = re.sub(r"\bcfb::Entries<'a, F>", "VEntries", t2)
+    t2 = re.sub(r"\bStreams<'a, F(?:: 'a)?>", "Streams", t2)
     # closed world: FinishImpl is the only implementor of the private trait Finish
     t2 = re.sub(r"\bBox<dyn Finish<F>>", "Box<FinishImpl>", t2)
     if t2 != text:
@@ -965,11 +967,14 @@ class Extractor:
             if "x3c" in use.top.opts:
                 # the type parameter F of Package<F> disappears with the container model
                 header = re.sub(r"^<F[^>]*>\s*", "", header).replace("Package<F>", "Package")
+                header = re.sub(r"^<'a, F: 'a>\s*", "", header).replace("Streams<'a, F>", "Streams")
             # a trait impl also needs its associated types / consts
             (k, name, start, end, kw) = cands[0]
             b = find_body_open(masked, kw)
             self.emit("impl " + header + " {\n", self.tpath, use.tline)
             for it in list_items(src, masked, b + 1, end - 1, 0):
+                if it[0] == "type" and "x4impl" in use.top.opts:
+                    continue  # an inherent impl has no associated types (`type Item = ..` of the trait impl)
                 if it[0] in ("type", "const"):
                     line = src.count("\n", 0, it[2]) + 1
                     self.emit(src[it[2]:it[3]] + "\n", use.path, line)
